@@ -30,13 +30,26 @@ ASSUMPTIONS = ['threads are serialised by the scheduler: interleavings inside C-
 REQUIRED_REACH = ['schedules:single-preemption', 'schedules:single-preemption-on-fresh-application', 'schedules:random-multi', 'stress:responses-compared', 'both-in-dispatch',
                   'request-ids-collected', 'preempted-inside:application.py', 'preempted-inside:route.py',
                   'preempted-inside:sinter-generated', 'kind:echo', 'kind:404', 'kind:405', 'kind:fallthrough', 'kind:boom',
-                  'kind:redirect', 'kind:render', 'kind:httperr']
+                  'kind:redirect', 'kind:render', 'kind:httperr', 'kind:raw-path', 'kind:item-redirect', 'sequential:responses-compared']
 NSHARDS = 16
 KINDS = ['echo', 'echo2', '404', '405', 'fallthrough', 'boom', 'redirect', 'render', 'httperr']
 # two routes on one path with different methods: a request neither admits makes the dispatcher collect both method sets
-KINDS_MORE = ['thing-delete', 'thing-post', 'thing-get', 'param']
+KINDS_MORE = ['thing-delete', 'thing-post', 'thing-get', 'param', 'echo-rawtail', 'echo-rawbytes', 'item-redirect']
 EXTRA_PAIRS = [('thing-delete', 'thing-post'), ('thing-post', 'thing-delete'), ('thing-delete', 'thing-delete'), ('thing-delete', 'thing-get'),
-               ('thing-post', 'echo'), ('405', 'thing-delete'), ('thing-delete', 'fallthrough'), ('param', 'param'), ('param', 'echo'), ('echo', 'param')]
+               ('thing-post', 'echo'), ('405', 'thing-delete'), ('thing-delete', 'fallthrough'), ('param', 'param'), ('param', 'echo'), ('echo', 'param'),
+               # request paths as a server hands them over: bytes that are not (or not yet) UTF-8 - a truncated multi-byte
+               # character at the end, a Latin-1 byte in the middle - next to plain ASCII ones
+               ('echo', 'echo-rawtail'), ('echo-rawtail', 'echo'), ('echo-rawtail', 'echo-rawtail'), ('404', 'echo-rawtail'),
+               ('echo-rawbytes', 'echo'), ('echo', 'echo-rawbytes'), ('echo-rawtail', 'echo-rawbytes'),
+               # a slash redirect issued after an earlier route on the path refused the method
+               ('item-redirect', '404'), ('404', 'item-redirect'), ('item-redirect', 'item-redirect'), ('item-redirect', 'thing-delete')]
+
+
+FRESH_SKIPPED = ('echo-rawtail', 'echo-rawbytes', 'item-redirect')     # (kinds explored on the warm application only)
+
+
+class RawPath(str):
+    """PATH_INFO exactly as given (a WSGI 'bytes-as-latin-1' string), not the UTF-8 encoding of a text"""
 
 
 def build_app():
@@ -101,6 +114,8 @@ def build_app():
               Route('/fall/<x>', fall_first), Route('/fall/<x>', fall_second),
               Route('/boom/<x>', boom), Route('/branch/', branch), Route('/render/<x>', ctx, render_basic),
               Route('/err/<x>', httperr), Route('/only-get', lambda: Response('x'), methods=['GET']),
+              Route('/item/<name>', lambda request, name, who: Response('item-written:%s:%s' % (name, who), status=201), methods=['POST']),
+              Route('/item/<name>/', lambda request, name, who: Response('item:%s:%s' % (name, who))),
               Route('/thing', lambda request, who: Response('read:%s' % who), methods=['GET']),
               Route('/thing', lambda request, who: Response('written:%s' % who, status=201), methods=['POST'])]
     return Application(routes, middlewares=[Who(), Stamp()], error_handler=EH())
@@ -112,6 +127,12 @@ def make_request(kind, tok):
     h = {'X-Token': tok}
     if accept:
         h['Accept'] = accept
+    if kind == 'echo-rawtail':
+        return ('GET', RawPath('/echo/raw-%s\xc3' % tok), 'k=' + tok, h)
+    if kind == 'echo-rawbytes':
+        return ('GET', RawPath('/echo/caf\xe9-%s\xe2\x82' % tok), 'k=' + tok, h)
+    if kind == 'item-redirect':
+        return ('GET', '/item/i-%s' % tok, 'k=' + tok, h)
     if kind in ('echo', 'echo2'):
         return ('GET', '/echo/%s-%s' % (kind, tok), 'k=' + tok, h)
     if kind == '404':
@@ -156,7 +177,8 @@ def job_for(app, req):
     method, path, query, headers = req
 
     def job():
-        return probe.request(app, method, path, query, headers=headers, token=headers['X-Token'], trace=spies.new_trace())
+        return probe.request(app, method, path, query, headers=headers, token=headers['X-Token'], trace=spies.new_trace(),
+                             raw_path=isinstance(path, RawPath))
     return job
 
 
@@ -214,7 +236,7 @@ class Ctx(object):
         if s.overlap_dispatch:
             sh.hit('both-in-dispatch')
         for k in kinds:
-            sh.hit('kind:' + {'echo2': 'echo', 'thing-get': 'thing', 'thing-post': 'thing', 'thing-delete': 'thing'}.get(k, k))
+            sh.hit('kind:' + {'echo2': 'echo', 'thing-get': 'thing', 'thing-post': 'thing', 'thing-delete': 'thing', 'echo-rawtail': 'raw-path', 'echo-rawbytes': 'raw-path'}.get(k, k))
         return ok
 
 
@@ -235,7 +257,7 @@ def single_preemption(cx, pairs, opcode=False):
             sh.hit('schedules:single-preemption')
             n_eval += 1
             n_nt += bool(s.switches)
-        if not opcode:
+        if not opcode and not (ka in FRESH_SKIPPED or kb in FRESH_SKIPPED):
             # the same schedules against an application that has never served a request: lazily built state
             # (caches, tables) is under construction exactly once in an application's life
             fresh0 = build_app()
@@ -307,7 +329,7 @@ def stress(cx, rng, nthreads, per_thread):
     finally:
         sys.setswitchinterval(old)
     n = nthreads * per_thread
-    sh.hit('stress:responses-compared', n)
+    sh.hit('stress:responses-compared' if nthreads > 1 else 'sequential:responses-compared', n)
     for r in rids:
         cx.rids.extend(r)
         sh.hit('request-ids-collected', len(r))
@@ -344,6 +366,10 @@ def plan(tier, seed):
         specs.append({'label': 'random-%d' % i, 'kind': 'random', 'n': 250 if tier == 'quick' else 25000, 'timeout': 7200})
     for i in range(4 if tier == 'quick' else 16):
         specs.append({'label': 'stress-%d' % i, 'kind': 'stress', 'threads': 4, 'per_thread': 1500 if tier == 'quick' else 20000,
+                      'timeout': 7200})
+    # one client, one request after the other: what a request leaves behind meets the next one
+    for i in range(2 if tier == 'quick' else 8):
+        specs.append({'label': 'sequential-%d' % i, 'kind': 'stress', 'threads': 1, 'per_thread': 4000 if tier == 'quick' else 60000,
                       'timeout': 7200})
     if tier == 'thorough':
         for i in range(NSHARDS):
